@@ -59,6 +59,57 @@ fn run_path(path: &[Act], shard: u16) -> (Vec<u64>, String, i64, Vec<usize>) {
     (ids, format!("{g:?}"), clock, epochs)
 }
 
+
+/// (C) every shard id of the 10-bit field, through the real ShardContext::next_event_id (own process: needs a configuration).
+/// Prints one line per issue; exit code 0 always unless the machinery fails.
+pub fn child(root: &str, tier: &str) -> i32 {
+    use snel_db::engine::shard::context::ShardContext;
+    let root = std::path::PathBuf::from(root);
+    let cfg = crate::sys::SysConfig::default();
+    let cfg_path = cfg.write(&root);
+    unsafe { std::env::set_var("SNELDB_CONFIG", &cfg_path) };
+    let shard_ids: Vec<usize> = if tier == "quick" {
+        vec![0, 1, 2, 3, 127, 128, 254, 255, 256, 257, 258, 511, 512, 513, 767, 768, 1022, 1023]
+    } else {
+        (0..1024).collect()
+    };
+    let rt = tokio::runtime::Builder::new_multi_thread().worker_threads(2).enable_all().build().expect("runtime");
+    let _guard = rt.enter();
+    crate::interpose::set_clock_ms(T0);
+    crate::interpose::set_yield_tick_ms(1);
+    let mut seen: std::collections::HashMap<u64, usize> = std::collections::HashMap::new();
+    let mut calls = 0u64;
+    for sid in &shard_ids {
+        let base = root.join(format!("data/shard-{sid}"));
+        let wal = root.join(format!("wal/shard-{sid}"));
+        std::fs::create_dir_all(&base).unwrap();
+        std::fs::create_dir_all(&wal).unwrap();
+        // all contexts see the same millisecond
+        crate::interpose::set_clock_ms(T0);
+        let mut ctx = ShardContext::new(*sid, base, wal);
+        let mut last = 0u64;
+        for i in 0..3 {
+            let id = ctx.next_event_id().raw();
+            calls += 1;
+            let (_, tag, _) = decode(id);
+            if tag as usize != *sid {
+                println!("ISSUE shard {sid}: id {id} carries shard tag {tag}");
+            }
+            if i > 0 && id <= last {
+                println!("ISSUE shard {sid}: id {id} not greater than its predecessor {last}");
+            }
+            last = id;
+            if let Some(other) = seen.insert(id, *sid) {
+                println!("ISSUE shard {sid}: id {id} was already issued by shard {other} in the same millisecond");
+            }
+        }
+        drop(ctx);
+    }
+    crate::interpose::set_yield_tick_ms(0);
+    println!("COVERED shards={} calls={}", shard_ids.len(), calls);
+    0
+}
+
 /// first index at which the id sequence stops being strictly increasing
 fn first_bad(ids: &[u64]) -> Option<usize> {
     (1..ids.len()).find(|i| ids[*i] <= ids[*i - 1])
@@ -273,6 +324,37 @@ pub fn check(tier: &str) -> i32 {
             known_example
         );
     }
+    // ---- (C) all shard ids through the real ShardContext (child process with its own configuration)
+    let mut shard_cov = String::new();
+    {
+        let scratch = crate::lab::Scratch::new("c18shards");
+        let exe = std::env::current_exe().expect("exe");
+        let out = std::process::Command::new(exe).arg("c18child").arg(scratch.dir.join("db")).arg(tier).env_remove("SNELDB_CONFIG").output();
+        match out {
+            Ok(o) if o.status.success() => {
+                let text = String::from_utf8_lossy(&o.stdout).into_owned();
+                for l in text.lines() {
+                    if let Some(m) = l.strip_prefix("ISSUE ") {
+                        violations.push((vec![], format!("shard sweep: {m}")));
+                    } else if let Some(c) = l.strip_prefix("COVERED ") {
+                        shard_cov = c.to_string();
+                    }
+                }
+                if shard_cov.is_empty() {
+                    eprintln!("MACHINERY: shard sweep child printed no coverage line");
+                    return 2;
+                }
+            }
+            Ok(o) => {
+                eprintln!("MACHINERY: shard sweep child failed: {}", String::from_utf8_lossy(&o.stderr).chars().take(400).collect::<String>());
+                return 2;
+            }
+            Err(e) => {
+                eprintln!("MACHINERY: {e}");
+                return 2;
+            }
+        }
+    }
     let mut shown = BTreeSet::new();
     for (p, m) in violations.iter() {
         let key: String = m.chars().filter(|c| !c.is_ascii_digit()).collect();
@@ -297,6 +379,7 @@ pub fn check(tier: &str) -> i32 {
             "depth_bound": depth,
             "exhaustive": true,
             "explanation": "explicit-state BFS over the real EventIdGenerator::next with an injected wall clock: actions next@delta for delta in {-5,-1,0,+1,+2} ms, burst of 4097 calls in one millisecond (the spin in wait_next_millis is made visible: each sched_yield advances the injected clock by 1 ms), restart (fresh generator, history of issued ids kept by the oracle); state = generator fields and last id relative to the clock; every transition is an execution of the real code",
+            "shard_sweep": format!("real ShardContext::next_event_id for shard ids of the 10-bit field, three calls each inside one frozen millisecond: tag equals shard id, ids pairwise distinct across shards ({shard_cov})"),
             "end_to_end_histories": work.len(),
             "end_to_end_observations": e2e_obs,
             "clock_scripts": scripts.iter().map(|s| s.0).collect::<Vec<_>>(),
